@@ -8,7 +8,8 @@
                       ONE attempt plus one more per delay = 11 attempts
      src/server.rs    start_server: the three bind branches, notify_server_startup(..)? (a failed
                       notification makes the server EXIT, also after a successful bind)
-     src/net.rs       lock_unix_socket_path (flock on <path>.lock, held for the server's lifetime)
+     src/net.rs       lock_unix_socket_path (flock on <path>.lock) and LockedUnixListener: the lock file is owned
+                      by the LISTENER, so it is held exactly as long as the server listens on the path
 
    Processes.  Client i (i < k) and the server it spawns, server i; every client spawns at most
    one server (connect_or_start_server is not a loop).  A schedule is a list of events
@@ -23,7 +24,12 @@
             entry; `unlink` removes whatever is there (also a live server's socket, which keeps
             listening, unreachable); `bind` fails with EADDRINUSE iff the entry exists (live or
             stale); the entry survives its owner (stale: connect is refused).
-     lock : holder of the flock on <path>.lock; released when the holder exits.
+     lock : holder of the flock on <path>.lock; released together with the holder's listening socket.  In this
+            model a server stops listening only by exiting (`exit_server` closes the socket and releases the lock
+            in one step); the other way a listener goes away — run() dropping it when the shutdown phase begins,
+            the process living on until its in-flight requests are done — is Model/ServerLife.v's Draining phase,
+            during which this server is, for the start-up race, the same as an exited one: not listening, not
+            holding the lock (Model/ServerExit.v `arrival`, C20_late_client_cold_starts).
    `UdsPath false` is the start-up WITHOUT the lock (the code before the fix: finding S11),
    kept so that the defect stays a checked witness; `UdsPath true` is the code as it is now.  *)
 From Coq Require Import List NArith Bool.
@@ -97,7 +103,7 @@ Definition lock_is (s : st) (i : N) : bool :=
 Definition name_is (s : st) (i : N) : bool :=
   match name s with NBound j => j =? i | _ => false end.
 
-(* process exit: the listening socket closes, the lock is released *)
+(* the server stops listening (here: process exit): the listening socket closes and, with it, the lock is released *)
 Definition exit_server (s : st) (i : N) : st :=
   let b := listening (sv s i) in
   let s1 := if name_is s i then set_name s (released (kind s)) else s in
